@@ -10,6 +10,7 @@ import SshAudit.Model.DB
 import SshAudit.Gen.KexDB
 import SshAudit.Gen.Policies
 import SshAudit.Gen.Tables
+import SshAudit.Model.Report
 namespace SshAudit.C17
 open SshAudit SshAudit.Gen SshAudit.DBm SshAudit.Text
 
@@ -56,6 +57,31 @@ def sizeOk (h : HostKeySize) : Bool :=
 
 theorem policy_sizes_clean :
     ∀ p ∈ builtinPolicies, (∀ h ∈ p.hostkeySizes.getD [], sizeOk h = true) ∧ (∀ d ∈ p.dhModulusSizes.getD [], d.2 ≥ 3072) := by
+  decide +kernel
+
+/-! ### a peer configured exactly per a built-in policy shows no failure -/
+
+/-- the peer a built-in policy describes: its lists as advertised lists, its size maps as the measured sizes
+    (`withOptional`: the optional host keys are offered too) -/
+def peerOf (p : BuiltinPolicy) (withOptional : Bool) : Report.Peer :=
+  { kex := olist p.kex, key := olist p.hostKeys ++ (if withOptional then olist p.optionalHostKeys else []),
+    encC := olist p.ciphers, encS := olist p.ciphers, macC := olist p.macs, macS := olist p.macs, compS := olist p.compressions,
+    hostKeys := (p.hostkeySizes.getD []).map (fun h => (h.keyType, { size := h.hostkeySize, caType := h.caKeyType, caSize := h.caKeySize })),
+    dhSizes := p.dhModulusSizes.getD [] }
+
+/-- **The report the model renders for the peer of every built-in policy (every version, server and client, with and
+    without the optional host keys, OpenSSH banner or none) carries no failure**: its status is never 3. The database the
+    report starts from is the master database because, by `policy_sizes_clean`, probing such a peer adds no size note
+    (thresholds of C11/C12); the Terrapin and fallback edits of `post_process_findings` are part of `Report.report`. -/
+theorem builtin_peer_no_fail :
+    ∀ p ∈ builtinPolicies, ∀ opt ∈ [true, false], ∀ sw ∈ [none, some (s "OpenSSH_9.9")],
+      (Report.report rsaFamily ssh2db (peerOf p opt) (!p.serverPolicy) sw none []).status ≠ 3 := by
+  decide +kernel
+
+/-- … and nothing in it is unknown to the database -/
+theorem builtin_peer_all_known :
+    ∀ p ∈ builtinPolicies, ∀ opt ∈ [true, false],
+      (Report.report rsaFamily ssh2db (peerOf p opt) (!p.serverPolicy) none none []).unknown = [] := by
   decide +kernel
 
 /-- Host-key probe table ⊆ database. -/
